@@ -270,9 +270,17 @@ Fixpoint resolve_ty (fuel : nat) (st : symtab) (t : aty) : outcome mty :=
       end
   end.
 
-Definition resolve_param (fuel : nat) (st : symtab) (p : param) : outcome mparam :=
+(* Struct::from (mir.rs) computes the packed size of a struct type when the parameter is lowered,
+   in usize.  Since the repair (fact mir_size_checked: checked_mul / checked_add with a diagnostic)
+   a size that does not fit is an error in both profiles.  All terms are non-negative, so some
+   intermediate product or sum overflows exactly when the total does.  (The pinned code multiplied
+   and added unchecked: debug builds panicked, release builds wrapped; with the fact false the model
+   keeps the unbounded size and the difference shows in the debug/release runs of the C16 check.) *)
+Definition resolve_param_gen (checked : bool) (fuel : nat) (st : symtab) (p : param) : outcome mparam :=
   do t <- resolve_ty fuel st (p_ty p);
-  Ok (mkMP (p_out p) t (p_shape p) (p_name p)).
+  if (checked && (usize_max <=? mty_size t))%bool then Reject ROverflow
+  else Ok (mkMP (p_out p) t (p_shape p) (p_name p)).
+Definition resolve_param := resolve_param_gen mir_size_checked.
 
 Fixpoint resolve_params (fuel : nat) (st : symtab) (ps : list param)
   : outcome (list mparam) :=
